@@ -23,12 +23,18 @@ GRID_STEPS = [0.5, 1.0, 2.0, 2.5]
 
 
 def make_plan(rng, n_events=None, step=None, grid_step=None, varying_et=True, noise=False, gaps=False, odd_steps=False,
-              tie_top=False, light_equal=False):
+              tie_top=False, light_equal=False, top_cell=False, far_group=False):
     """tie_top: two recessions start from exactly the same highest level of the record (two events share the
     minimal m_after).  light_equal: the light-rain step after each storm has an intensity exactly EQUAL to the
     storm threshold (which is then a short dyadic number, so that the text files, SQLite and the command line
     all carry the very same binary64); "heavier than the threshold" is strict, so the planted truth is the same.
-    Both default to off; they draw random numbers only when on, after every other draw."""
+    top_cell: the record's highest water level is POSITIVE and strictly between two grid lines, and the grid level
+    just below it (the top level of the grid) is crossed by >= 2 rises and >= 2 recessions (see place_top_cell;
+    plan['top_cell'] tells whether that was achieved, plan['top_level'] is the level number).
+    far_group: after the other events the level recedes far below everything seen so far and 1-2 more storms
+    happen down there: their rises share no grid level with the rises of the main body (see add_far_group;
+    plan['far_group'] = number of such storms).
+    All default to off; they draw random numbers only when on, after every other draw."""
     step = step or rng.choice(STEPS + ODD_STEPS if odd_steps else STEPS)
     step_h = step / 3600.0
     sigma = rng.choice([0.25, 0.5, 0.125])
@@ -73,7 +79,117 @@ def make_plan(rng, n_events=None, step=None, grid_step=None, varying_et=True, no
             plan['gap'] = None                    # (the recession it was planned in has been cut short)
     if light_equal:
         plan['light_equal'] = True
+    if top_cell:
+        place_top_cell(rng, plan, M)
+    if far_group:
+        add_far_group(rng, plan)
     return plan
+
+
+def top_cell_stats(plan):
+    """What the record of a plan has at the top of its level grid, from the realised samples alone: the highest
+    level, the number G of the grid level just below it (= the last level of the grid floor(min/g) .. ceil(max/g)-1),
+    and how many rises / recession pieces cross G (lower end included, upper end excluded)."""
+    _, zeta, _, truth = realise(plan)
+    g = Fraction(plan['grid_step'])
+    miss = set(truth.get('missing', ()))
+    zmax = max(Fraction(z) for i, z in enumerate(zeta) if i not in miss)
+    q = zmax / g
+    G = math.ceil(q) - 1
+    n_rise = sum(1 for x in truth['rises'] if Fraction(x['zi']) <= G * g < Fraction(x['zf']))
+    n_rec = sum(1 for p in truth['pieces'] if p['last'] > p['first']
+                and Fraction(zeta[p['last']]) <= G * g < Fraction(zeta[p['first']]))
+    return dict(zmax=float(zmax), on_grid_line=(q.denominator == 1), level=G, rises=n_rise, recessions=n_rec)
+
+
+def place_top_cell(rng, plan, M):
+    """Re-chain the events so that two of them bring the level back to the same highest lattice level, keep every
+    storm's peak within one grid cell of it, then slide the whole lattice so that a grid line G*g (G >= 0) lies
+    just below that level: max level > 0, off the grid lines, level G crossed by two rises and two recessions.
+    The jump threshold is lowered when a planned rise would otherwise have to be stretched to exceed it."""
+    events = plan['events']
+    plan['top_cell'] = False
+    if len(events) < 2:
+        return
+    if not plan.get('tie_top'):
+        tie_top_events(rng, events, M)
+        plan['tie_top'] = True
+        if plan['gap'] is not None and plan['gap'][1] >= events[plan['gap'][0]]['rec_len'] - 3:
+            plan['gap'] = None
+    g = plan['grid_step']
+    mm = min(ev['m_after'] for ev in events)
+    for ev in events:
+        ev['over'] = rng.choice([0.0, 0.0, 0.03125]) if ev['m_after'] == mm else min(ev['over'], 0.25)
+    G = rng.choice([0, 0, 1, 2, 7, 25])
+    thr0, lat0 = plan['thr_j'], list(plan['lattice'])
+    for thr_j in [thr0, 1.0, 0.5, 0.25, 0.125, 0.0625, 0.03125]:
+        if thr_j > thr0:
+            continue
+        plan['thr_j'] = thr_j
+        plan['lattice'] = list(lat0)
+        _, zeta, _, truth = realise(plan)
+        zf = sorted((x['zf'] for x in truth['rises']), reverse=True)
+        st = sorted((zeta[p['first']] for p in truth['pieces'] if p['last'] > p['first']), reverse=True)
+        if len(zf) < 2 or len(st) < 2:
+            continue
+        T, zmax = min(zf[1], st[1]), max(zeta)
+        for e in (0.125, 0.0625, 0.03125, 0.25, 0.015625):
+            y = T - e                                   # the grid line, in the present coordinates
+            if not (zmax - g < y):
+                continue
+            c = G * g - y
+            plan['lattice'] = [v + c for v in lat0]
+            s = top_cell_stats(plan)
+            if s['zmax'] > 0 and not s['on_grid_line'] and s['rises'] >= 2 and s['recessions'] >= 2:
+                plan['top_cell'] = True
+                plan['top_level'] = s['level']
+                return
+    plan['thr_j'], plan['lattice'] = thr0, lat0
+
+
+def rise_level_sets(plan):
+    """Grid levels crossed by each planted rise (lower end included, upper excluded), from the realised samples."""
+    _, _, _, truth = realise(plan)
+    g = Fraction(plan['grid_step'])
+    return [set(range(math.ceil(Fraction(x['zi']) / g), math.ceil(Fraction(x['zf']) / g))) for x in truth['rises']]
+
+
+def add_far_group(rng, plan):
+    """Append 1-2 storms that happen after a long recession far below every earlier rise: none of their rises
+    shares a grid level with a rise of the main sequence (checked on the realised record).  The lattice is
+    extended downwards as needed."""
+    events, L = plan['events'], plan['lattice']
+    plan['far_group'] = 0
+    n_main = len(events)
+    n_far = rng.choice([1, 2, 2])
+    far = [dict(back=rng.randrange(3, 7), over=rng.choice([0.0, 0.25]), rec_len=rng.randrange(4, 9)) for _ in range(n_far)]
+    extra = [rng.choice([0.25, 0.5, 0.75, 1.0, 1.5, 0.375]) for _ in range(400)]
+    lat = list(L)
+    for d in extra:
+        lat.append(lat[-1] - d)
+    last = events[-1]
+    deepest = max(ev['m_before'] for ev in events)
+    base_len = last['rec_len']
+    for margin in range(2, 300, 3):
+        m = deepest + margin + far[0]['back']
+        if m - last['m_after'] < base_len:
+            continue
+        evs = [dict(ev) for ev in events]
+        evs[-1]['rec_len'] = m - last['m_after']
+        hi = m
+        for f in far:
+            m_after = m - f['back']
+            evs.append(dict(m_before=m, m_after=m_after, k=1, over=f['over'], rec_len=f['rec_len']))
+            m = m_after + f['rec_len']
+            hi = max(hi, m)
+        if hi + 2 >= len(lat):
+            break
+        trial = dict(plan, events=evs, lattice=lat[:max(hi + 2, len(L))])
+        sets = rise_level_sets(trial)
+        main = set().union(*sets[:n_main])
+        if all(not (s & main) for s in sets[n_main:]):
+            plan['events'], plan['lattice'], plan['far_group'] = evs, trial['lattice'], n_far
+            return
 
 
 def tie_top_events(rng, events, M):
@@ -191,9 +307,116 @@ def read_curves(db):
             storm=con.execute('SELECT start_epoch, thru_epoch FROM storm ORDER BY start_epoch').fetchall(),
             discrete_zeta=[r[0] for r in con.execute('SELECT zeta_number FROM discrete_zeta ORDER BY zeta_number')],
             grid=con.execute('SELECT grid_interval_mm FROM zeta_grid').fetchall(),
+            # what plotting reads per interval, and the tables it derives from
+            rise_segments=con.execute('SELECT interval_start_epoch, rain_depth_offset_mm, rain_total_depth_mm, '
+                                      'initial_zeta_mm, final_zeta_mm FROM rising_curve_line_segment').fetchall(),
+            zeta_interval_storm=con.execute('SELECT interval_start_epoch, storm_start_epoch FROM zeta_interval_storm').fetchall(),
+            water_level=dict(con.execute('SELECT epoch, zeta_mm FROM water_level')),
+            rainfall=con.execute('SELECT from_epoch, thru_epoch, rainfall_intensity_mm_h FROM rainfall_intensity '
+                                 'ORDER BY from_epoch').fetchall(),
+            views=sorted(r[0] for r in con.execute("SELECT name FROM sqlite_master WHERE type = 'view'")),
         )
     finally:
         con.close()
+    return out
+
+
+# ------------------------------------------------------------------ views against the tables they present
+
+KINDS = dict(rise=('rising_interval', 'rising_interval_zeta', 'avg_rise', 'average_rising_depth'),
+             recession=('recession_interval', 'recession_interval_zeta', 'avg_recession', 'average_recession_time'))
+KNOWN_VIEWS = ['average_recession_time', 'average_rising_depth', 'rising_curve_line_segment', 'storm_total_rain_depth',
+               'storm_total_rise']
+
+
+def table_master(r, kind):
+    """The master curve as the tables define it: level number -> mean over the aligned intervals crossing it of
+    (offset + crossing value).  Rows of intervals that have no offset are not part of the curve."""
+    offs_key, rows_key = KINDS[kind][:2]
+    offs = r[offs_key]
+    per = {}
+    for start, zn, v in r[rows_key]:
+        if start in offs:
+            per.setdefault(zn, []).append(offs[start] + v)
+    return {zn: math.fsum(vals) / len(vals) for zn, vals in per.items()}, {zn: len(vals) for zn, vals in per.items()}
+
+
+def view_master(r, kind):
+    """The master curve as the VIEW shows it (what a user, plotting and the PEST files see): level number ->
+    value, plus complaints about rows that are not on a grid level or are listed twice."""
+    g = r['grid'][0][0]
+    got, bad = {}, []
+    for zeta_mm, v in r[KINDS[kind][2]]:
+        k = int(round(zeta_mm / g))
+        if abs(zeta_mm - k * g) > 1e-9 * (1 + abs(k * g)):
+            bad.append('%s lists %r mm, which is not a multiple of the grid step %r' % (KINDS[kind][3], zeta_mm, g))
+        elif k in got:
+            bad.append('%s lists level %d (%r mm) twice' % (KINDS[kind][3], k, zeta_mm))
+        got[k] = v
+    return got, bad
+
+
+def view_table_complaints(r, kinds=('rise', 'recession')):
+    """Every level at which an aligned interval has a crossing row must appear in the master-curve view with
+    zeta_mm = level * step and value = mean(offset + crossing), and the view shows nothing else."""
+    out = []
+    g = r['grid'][0][0]
+    for kind in kinds:
+        want, cnt = table_master(r, kind)
+        got, bad = view_master(r, kind)
+        view, rows_key = KINDS[kind][3], KINDS[kind][1]
+        out += ['%s: %s' % (kind, b) for b in bad]
+        missing = sorted(set(want) - set(got))
+        if missing:
+            dz = r.get('discrete_zeta') or [None]
+            out.append('%s: level(s) %s (%s mm) are crossed by %s aligned interval(s) in %s but the view %s has no point there: '
+                       'the master curve shown stops at %s mm although the assembled curve reaches %s mm (grid levels in '
+                       'discrete_zeta: %s .. %s; highest water level %r mm; step %r mm)'
+                       % (kind, missing, [k * g for k in missing], [cnt[k] for k in missing], rows_key, view,
+                          max(got) * g if got else None, max(want) * g, dz[0], dz[-1],
+                          max(r['water_level'].values()) if r.get('water_level') else None, g))
+        extra = sorted(set(got) - set(want))
+        if extra:
+            out.append('%s: the view %s shows level(s) %s at which no aligned interval has a crossing row' % (kind, view, extra))
+        scale = 1 + max([abs(v) for v in want.values()] + [0.0])
+        for k in sorted(set(want) & set(got)):
+            if abs(want[k] - got[k]) > 1e-9 * scale:
+                out.append('%s: the view %s gives %r at level %d; the mean of offset + crossing over the %d aligned interval(s) '
+                           'crossing it is %r' % (kind, view, got[k], k, cnt[k], want[k]))
+                break
+    return out
+
+
+def line_segment_complaints(r):
+    """rising_curve_line_segment (read by `spowtd plot rise`): exactly one row per ALIGNED rise (those of
+    rising_interval - the intervals left out of the main body are absent), carrying that rise's own offset, the
+    total rain depth of its storm and the water levels at its two ends.  Everything recomputed from the tables."""
+    out = []
+    offs = r['rising_interval']
+    storm_of = dict(r['zeta_interval_storm'])
+    thru_of = {a: b for a, t, b in r['zeta_interval'] if t == 'storm'}
+    storm_thru = dict(r['storm'])
+    got = {}
+    for row in r['rise_segments']:
+        if row[0] in got:
+            out.append('rising_curve_line_segment lists the rise starting %s twice' % row[0])
+        got[row[0]] = row[1:]
+    extra = sorted(set(got) - set(offs))
+    if extra:
+        out.append('rising_curve_line_segment places %d rise(s) that the alignment left out (no row in rising_interval: they '
+                   'share no level with the main body): %s' % (len(extra), [(s, 'offset %r' % (got[s][0],)) for s in extra][:4]))
+    missing = sorted(set(offs) - set(got))
+    if missing:
+        out.append('rising_curve_line_segment lacks aligned rise(s) %s' % missing[:4])
+    for s in sorted(set(offs) & set(got)):
+        st = storm_of.get(s)
+        depth = math.fsum(i * (b - a) / 3600.0 for a, b, i in r['rainfall']
+                          if st is not None and a >= st and b <= storm_thru[st])
+        want = (offs[s], depth, r['water_level'].get(s), r['water_level'].get(thru_of.get(s)))
+        for name, w, v in zip(('rain_depth_offset_mm', 'rain_total_depth_mm', 'initial_zeta_mm', 'final_zeta_mm'), want, got[s]):
+            if w is None or v is None or abs(w - v) > 1e-9 * (1 + abs(w)):
+                out.append('rising_curve_line_segment: rise starting %s has %s = %r; the tables give %r' % (s, name, v, w))
+                return out
     return out
 
 
